@@ -30,24 +30,45 @@ ALLOW = {
     ("_tt_base.TT.set_core", "self"), ("_tt_base.TT.reduce_dims", "self"),
     ("grad.watch", "tens"), ("grad.watch_list", "tensors"), ("grad.unwatch", "tens"),
 }
-# one named exception, with the reason and what is re-verified on each run
-EXCEPTIONS = {
-    ("_division.amen_divide", "x_cores[k] *= normx"):
-        "elements of x_cores still alias the initial guess only on the zero-sweep path (nswp = 0); there normx is "
-        "exp(mean(log(ones))) = 1.0, a multiplication by one. Re-verified: every store into normx besides its np.ones "
-        "initialisation and the final geometric mean lies inside the sweep loop, and both sweep directions rebind x_cores[k].",
-}
+# one named exception, with the reason and what is re-verified on each run.  It is identified by its structure, not by names:
+# the final rescale of amen_divide - the statement `<cores>[i] *= <g>` of the last top-level loop, where <g> is the geometric mean
+# np.exp(np.sum(np.log(<norm tracker>)) / d) of a tracker initialised with np.ones.
+EXC_FUNC = "_division.amen_divide"
+EXC_REASON = ("elements of the solution core list still alias the initial guess only on the zero-sweep path (nswp = 0); there the tracker is "
+              "all ones and exp(mean(log(ones))) = 1.0, a multiplication by one. Re-verified: every store into the tracker besides its np.ones "
+              "initialisation and the final geometric mean lies inside the sweep loop, and both sweep directions rebind the core list's elements.")
+
+
+def _final_rescale(model: Model):
+    """(statement text, core list name, tracker name, sweep loop) or None"""
+    if not model.has_func(EXC_FUNC):
+        return None
+    f = model.func(EXC_FUNC)
+    tops = [n for n in f.node.body if isinstance(n, ast.For)]
+    if len(tops) < 2:
+        return None
+    last = tops[-1]
+    sweep = max(tops[:-1], key=lambda n: sum(1 for _ in ast.walk(n)))
+    for st in last.body:
+        if isinstance(st, ast.AugAssign) and isinstance(st.op, ast.Mult) and isinstance(st.target, ast.Subscript) and isinstance(st.target.value, ast.Name) \
+                and isinstance(st.value, ast.Name):
+            g = st.value.id
+            defs = [n for n in f.node.body if isinstance(n, ast.Assign) and any(isinstance(t, ast.Name) and t.id == g for t in n.targets)]
+            gm = [d for d in defs if norm(d.value).replace(" ", "").startswith("np.exp(np.sum(np.log(")]
+            if gm:
+                return norm(st)[:100], st.target.value.id, g, sweep, f
+    return None
+
+
+EXCEPTIONS = {}      # filled per run by verify_amen_divide_exception: {(function, construct text): reason}
 
 
 def verify_amen_divide_exception(model: Model):
-    f = model.func("_division.amen_divide")
-    loops = [n for n in f.node.body if isinstance(n, ast.For)]
-    sweep = None
-    for n in loops:
-        if isinstance(n.target, ast.Name) and n.target.id == "swp":
-            sweep = n
-    if sweep is None:
-        return False, "sweep loop `for swp in range(nswp)` not found"
+    EXCEPTIONS.clear()
+    fr = _final_rescale(model)
+    if fr is None:
+        return False, "final rescale `<cores>[i] *= exp(mean(log(tracker)))` of amen_divide not found"
+    text, cores, tracker, sweep, f = fr
     inside = {id(x) for x in ast.walk(sweep)}
     outside_stores = []
     for n in ast.walk(f.node):
@@ -59,19 +80,25 @@ def verify_amen_divide_exception(model: Model):
         if tgt is None:
             continue
         base = tgt.value if isinstance(tgt, ast.Subscript) else tgt
-        if isinstance(base, ast.Name) and base.id == "normx" and id(n) not in inside:
-            outside_stores.append(norm(n))
-    ok_forms = [s for s in outside_stores if s.startswith("normx = np.ones(") or s.startswith("normx = np.exp(np.sum(np.log(normx))")]
+        if isinstance(base, ast.Name) and base.id == tracker and id(n) not in inside:
+            outside_stores.append(norm(n).replace(" ", ""))
+    ok_forms = [x for x in outside_stores if x.startswith(f"{tracker}=np.ones(") or x.startswith(f"{tracker}=np.exp(np.sum(np.log({tracker})")]
     if len(ok_forms) != len(outside_stores):
-        return False, f"normx is also written outside the sweep loop: {outside_stores}"
-    # both sweep directions rebind x_cores[...]
-    rebinds = [norm(n.targets[0]) for n in ast.walk(sweep) if isinstance(n, ast.Assign)
-               and isinstance(n.targets[0], ast.Subscript) and isinstance(n.targets[0].value, ast.Name)
-               and n.targets[0].value.id == "x_cores"]
-    need = {"x_cores[k]", "x_cores[k - 1]", "x_cores[k + 1]"}
-    if not need <= set(rebinds):
-        return False, f"sweep no longer rebinds {sorted(need - set(rebinds))}"
-    return True, "normx written only inside the sweep; x_cores[k-1], x_cores[k], x_cores[k+1] rebound in the sweep"
+        return False, f"the tracker `{tracker}` is also written outside the sweep loop: {outside_stores}"
+    # both sweep directions rebind <cores>[v], <cores>[v-1], <cores>[v+1] (v: the position variables of the inner loops)
+    pos_vars = {n.target.id for n in ast.walk(sweep) if isinstance(n, ast.For) and n is not sweep and isinstance(n.target, ast.Name)}
+    rebinds = set()
+    for n in ast.walk(sweep):
+        if isinstance(n, ast.Assign) and isinstance(n.targets[0], ast.Subscript) and isinstance(n.targets[0].value, ast.Name) and n.targets[0].value.id == cores:
+            t = norm(n.targets[0].slice).replace(" ", "")
+            for v in pos_vars:
+                t = t.replace(v, "k")
+            rebinds.add(t)
+    need = {"k", "k-1", "k+1"}
+    if not need <= rebinds:
+        return False, f"the sweep no longer rebinds `{cores}` at {sorted(need - rebinds)}"
+    EXCEPTIONS[(EXC_FUNC, text)] = EXC_REASON
+    return True, f"`{tracker}` written only inside the sweep; `{cores}`[k-1], [k], [k+1] rebound in the sweep"
 
 
 def check(model: Model, tier: str):
